@@ -164,8 +164,9 @@ CHECKS["C06"] = {
     "pkg": "./conn",
     "level": "exploration",
     "rule": ("A case is a connection configuration (soft/hard cancel, split size, writer buffer), 1..3 RPCs whose client and handler programs are drawn independently "
-             "(unary or stream; client: send/recv/closesend/close/cancel steps, unary with an optional concurrent canceller; handler: recv/send steps then return nil or an error), "
-             "optionally holding the point between stream creation and the invoke write, and up to 300 pre-drawn director choices (transport chunking, grants, point releases). "
+             "(unary or stream; client: send/recv/drain/closesend/close/cancel steps and receives whose encoding rejects the message, unary with an optional concurrent canceller, optional cancel of the call's context once it is over; "
+             "handler: recv/send steps, possibly an undecodable receive or no receive at all, then return nil or an error), issued one after the other or all up front from separate goroutines, "
+             "optionally holding the point between stream creation and the invoke write, a window of steps during which one transport direction is stalled, and up to 300 pre-drawn director choices from an alphabet weighted towards grants (transport chunking, grants, point releases). "
              "After each RPC the transport is flushed; an application-level stall is ended by Close from another goroutine. Oracle: if the connection has not reported itself closed and every client call and handler "
              "has returned, a probe unary RPC reaches its handler and returns its own echo, decided at quiescence in flush mode. Non-trivial: the probe ran and some earlier RPC ended with bytes in flight, "
              "an early close, a soft cancel, a handler error or a forced close. Distinct by action trace + programs."),
@@ -179,9 +180,9 @@ CHECKS["C06"] = {
 CHECKS["C04"] = {
     "pkg": "./conn",
     "level": "exploration",
-    "rule": ("One streaming RPC is created, then up to five client goroutines (two senders, a receiver, a terminal call Close/CloseSend, plus late operations) are advanced by up to 30 director "
+    "rule": ("Optionally an earlier unary call has completed on the connection and had its context cancelled at once. One streaming RPC is created, then up to five client goroutines (two senders, a receiver, a terminal call Close/CloseSend, plus late operations) are advanced by up to 30 director "
              "choices drawn from an alphabet weighted towards grants (so that several operations are in flight), optionally with 1..4 of 13 stream/manager scheduling points held; then the RPC's context "
-             "is cancelled and the transport is FROZEN (no accept, no delivery; point releases only). Oracle at quiescence: every operation of the RPC has returned; receives blocked at cancel time satisfy "
+             "is cancelled and the transport is FROZEN (no accept, no delivery; point releases only); optionally a second caller issues a unary call at that moment and has its own context cancelled while it waits. Oracle at quiescence: every operation of the RPC has returned; receives blocked at cancel time satisfy "
              "errors.Is(err, context.Canceled) and, in the default mode, so do sends parked in the transport (only when the cancel is the sole termination cause); nil is never returned by a blocked op; "
              "operations issued afterwards fail at once; once the transport moves again the peer handler ends with its stream context done and the connection is closed or a probe RPC succeeds. "
              "Non-trivial: >= 2 operations in flight at cancel time with a write parked in the transport, a goroutine held at a point, or a terminal call in flight. Distinct by action trace + programs. "
